@@ -109,9 +109,14 @@ func init() {
 			{Name: "unary-minus", Quick: []int{1}, ShardDepth: 1, Run: func(c *explore.Chooser, x *explore.Ctx, _ int) {
 				o := c03Operands[c.Choose(nOp)]
 				fromInput := c.Bool()
+				depth := 1 + c.Choose(3) // -x, -(-x), -(-(-x)): every negation checks its own operand
 				c.Done()
 				doc := map[string]interface{}{}
-				c03Check(x, &ref.Neg{X: c03Operand(o, fromInput, "l", doc)}, doc)
+				var n ref.Node = c03Operand(o, fromInput, "l", doc)
+				for i := 0; i < depth; i++ {
+					n = &ref.Neg{X: n}
+				}
+				c03Check(x, n, doc)
 			}},
 			{Name: "range", Quick: []int{1}, Run: func(c *explore.Chooser, x *explore.Ctx, _ int) {
 				var l, r operand
